@@ -35,7 +35,9 @@ SomeSpellings == {
   <<"a.slice">>, <<"d", "..", "a.slice">>, <<"la.slice">>, <<"b.slice">>, <<"c.txt">>, <<"lnk">>, <<"d">>, <<"ld">>, <<"d", "sub">>, <<"e">>,
   <<"dangling.slice">>, <<"missing.slice">>, <<"bad.slice">>, <<"ld", "x.slice">>, <<"g">>, <<"ROOT", "a.slice">>, <<"pkg.slice">>
 }
-Spellings == IF SpellingSet = "all" THEN AllSpellings ELSE SomeSpellings
+\* few spellings, longer lists: a file named twice with another argument in between, in either list
+DupSpellings == { <<"a.slice">>, <<"d", "..", "a.slice">>, <<"b.slice">>, <<"d">>, <<"d", "x.slice">> }
+Spellings == CASE SpellingSet = "all" -> AllSpellings [] SpellingSet = "dup" -> DupSpellings [] OTHER -> SomeSpellings
 
 VARIABLES sources, refs
 SeqsOver(S, n) == UNION {[1..m -> S] : m \in 0..n}
